@@ -268,6 +268,9 @@ static res_t do_op(rset_t *s, const op_t *op)
 	case OP_RESOLVE: {
 		uint64_t out = 0;
 		char buf[1100];
+		/* resolve_path opens directories WITH "." / ".." generation: on a DOT_ENTRIES reader that consults the cache of directories seen
+		   so far (documented history dependence, made visible by damaged images) - the plain reader is used for the verdict */
+		dr = s->dr;
 		if (!dr || !npaths) break;
 		snprintf(buf, sizeof(buf), "%s%s", paths[op->a % npaths], (op->c % 5 == 4) ? "/nonexistent" : "");
 		r.status = sqfs_dir_reader_resolve_path(dr, buf, NULL, &out);
